@@ -94,6 +94,9 @@ def ops_of(events):
 
 # ------------------------------------------------------------------------------------------ C01
 def c01(cfg, events):
+    v = initial_state(cfg, events)
+    if v:
+        return v
     if not cfg.all_defined(LIFE) or (cfg.head and not all(cfg.defined(255, m) for m in ("enter", "exit"))):
         return None
     state = {}          # inst -> active id or None (inactive) ; absent = no instance
@@ -153,15 +156,25 @@ def c01(cfg, events):
 
 
 # ------------------------------------------------------------------------------------------ rounds
-def rounds_of(cfg, evs):
-    """guard rounds of one PROCESSING op (every state defines both guards, no injections): a round starts at
-    each exitGuard delivery (always delivered, to the active state); it is vetoed iff some guard of the round
-    called cancelPendingTransition().  Returns list of dict(pend, cancelled)."""
+def rounds_of(cfg, evs, activation=False):
+    """guard rounds of one op (every state defines both guards, no injections).  Processing: a round starts at each
+    exitGuard delivery (always delivered, to the active state).  Activation: at the root's entryGuard when the root
+    defines it, else at every entryGuard.  A round is vetoed iff one of its guards called cancelPendingTransition().
+    Returns list of dict(pend, cur, cancelled, made)."""
     rounds, cur = [], None
+    head_guard = cfg.head and cfg.defined(255, "entryGuard")
     for e in evs:
-        if e.kind == "cb" and e.method == "exitGuard" and e.layer == "S":
-            cur = {"pend": e.f.get("pend"), "cancelled": False}
+        start = False
+        if e.kind == "cb" and e.layer == "S":
+            if not activation:
+                start = e.method == "exitGuard"
+            else:
+                start = e.method == "entryGuard" and (e.sid == 255 if head_guard else True)
+        if start:
+            cur = {"pend": e.f.get("pend"), "cur": e.f.get("cur"), "cancelled": False, "views": []}
             rounds.append(cur)
+        if e.kind == "cb" and e.method in GUARDS and cur is not None:
+            cur["views"].append((e.f.get("pend"), e.f.get("cur"), e.raw))
         elif e.kind == "do" and e.method in GUARDS and e.text == "cancel" and cur is not None:
             cur["cancelled"] = True
         elif e.kind == "do" and e.method in GUARDS and cur is not None and e.text.split()[0] in ("changeTo", "changeWith"):
@@ -170,20 +183,28 @@ def rounds_of(cfg, evs):
     return rounds
 
 
-def redirects_evaluated(cfg, op, api_name, evs):
+def redirects_evaluated(cfg, op, api_name, evs, activation=False):
     """a request made by a guard is evaluated in the next round (unless the substitution limit is reached, or it
-    repeats an accepted external payload-free request to the same destination, which the library drops)"""
-    rounds = rounds_of(cfg, evs)
+    repeats an accepted external payload-free request to the same destination, which the library drops); every
+    guard of a round is shown that round's pending transition and the transition accepted so far as current"""
+    rounds = rounds_of(cfg, evs, activation)
+    limit = cfg.L + 1 if activation else cfg.L      # activation: one evaluation outside the loop
     current, iters = None, 0
     for k, r in enumerate(rounds):
         iters += 1
+        exp_cur = "-" if current is None else current
+        for (pv, cv, raw) in r["views"]:
+            if pv != r["pend"]:
+                return "op%d (%s): guards of round %d are shown different pending transitions (%s / %s): %s" % (op, api_name, k + 1, r["pend"], pv, raw)
+            if cv is not None and cv != "~" and cv != exp_cur:
+                return "op%d (%s): in round %d the transition accepted so far is %s, but the guard sees %s as the current transition: %s" % (op, api_name, k + 1, exp_cur, cv, raw)
         if not r["cancelled"] and r["pend"] not in ("-", None):
             current = r["pend"]
         made = r.get("made")
         nxt = rounds[k + 1] if k + 1 < len(rounds) else None
         if made is None:
             continue
-        if iters >= cfg.L:
+        if iters >= limit:
             continue
         if current is not None and current == "255>%s:-" % made.split(">")[1].split(":")[0]:
             continue
@@ -192,6 +213,23 @@ def redirects_evaluated(cfg, op, api_name, evs):
         if nxt["pend"] != made:
             return "op%d (%s): a guard of round %d requested %s, but round %d evaluates %s" % (op, api_name, k + 1, made, k + 2, nxt["pend"])
     return None
+
+
+def leftover_request(cfg, evs):
+    """the request left outstanding by a processing op that ran into the substitution limit (None if none / unknown)"""
+    rounds = rounds_of(cfg, evs)
+    if len(rounds) < cfg.L or not rounds:
+        return None
+    current = None
+    for r in rounds:
+        if not r["cancelled"] and r["pend"] not in ("-", None):
+            current = r["pend"]
+    made = rounds[-1].get("made")
+    if made is None:
+        return None
+    if current is not None and current == "255>%s:-" % made.split(">")[1].split(":")[0]:
+        return None
+    return made
 
 
 def life_of(evs):
@@ -224,6 +262,10 @@ def c02_outcome(cfg, events):
             continue
         before = last_act.get(inst)
         last_act[inst] = int(api.f["act"])
+        if api.name in ("construct", "enter") and not any(e.kind == "rejected" for e in evs):
+            v = redirects_evaluated(cfg, op, api.name, evs, activation=True)
+            if v:
+                return v
         if api.name not in PROCESSING or before is None:
             continue
         rounds = rounds_of(cfg, evs)
@@ -501,6 +543,10 @@ def latest_request(cfg, events, case):
         last = ext.get(inst) if w[0] in ("update", "react") and not rejected else None
         if w[0] not in neutral or w[0] in ("copy",):
             ext.pop(inst, None)
+        if w[0] in PROCESSING and not rejected and cfg.all_defined(GUARDS) and not any(cfg.inj):
+            lo = leftover_request(cfg, evs)
+            if lo is not None:
+                ext[inst] = lo      # never vetoed, never replaced: it stays outstanding for the next processing call
         if w[0] == "copy" and not rejected and len(w) > 2 and int(w[2]) in ext:
             ext[inst] = ext[int(w[2])]
         if w[0] not in PHASE_FAM:
@@ -534,6 +580,10 @@ def c07(cfg, events, case=None):
     if cfg.all_defined(GUARDS + LIFE) and not any(cfg.inj):
         for (inst, op), evs in ops_of(events):
             api = next((e for e in evs if e.kind == "api"), None)
+            if api is not None and api.name in ("construct", "enter") + PROCESSING and not any(e.kind == "rejected" for e in evs):
+                v = redirects_evaluated(cfg, op, api.name, evs, activation=api.name in ("construct", "enter"))
+                if v:
+                    return v
             if api is None or api.name not in PROCESSING:
                 continue
             surv = None
@@ -867,6 +917,32 @@ def c17(cfg, events, case=None):
     return None
 
 
+# ------------------------------------------------------------------------------------------ C14 (machine level)
+def initial_state(cfg, events, case=None):
+    """activation (automatic construction, or enter() under manual activation) enters the first declared state
+    unless an entry guard of that very call redirected it"""
+    for (inst, op), evs in ops_of(events):
+        api = next((e for e in evs if e.kind == "api"), None)
+        if api is None or any(e.kind == "rejected" for e in evs):
+            continue
+        if not (api.name == "enter" or (api.name == "construct" and not cfg.manual)):
+            continue
+        redirected = any(e.kind == "do" and e.method == "entryGuard" and e.text.split()[0] in ("changeTo", "changeWith") for e in evs)
+        if not redirected and int(api.f["act"]) != 0:
+            return "op%d: %s() activated state %s although no entry guard redirected the activation: the first declared state (0) is the initial state" % (op, api.name, api.f["act"])
+    return None
+
+
+def c14(cfg, events, case=None):
+    v = initial_state(cfg, events, case)
+    if v:
+        return v
+    for e in events:
+        if e.kind == "cb" and int(e.f["id"]) != e.sid:
+            return "a callback of state %d runs with a control whose stateId() is %s: %s" % (e.sid, e.f["id"], e.raw)
+    return None
+
+
 # ------------------------------------------------------------------------------------------ metamorphic twins (implementation only)
 def strip_logs(lines):
     return [l for l in lines if not l.startswith("log ")]
@@ -1025,8 +1101,8 @@ def metamorphic(prop, case, impl_lines, rerun):
 
 
 ORACLES = {"C01": c01, "C02": c02, "C03": c02, "C04": c04, "C05": c05, "C06": c06, "C11": c02, "C12": c12,
-           "C07": c07, "C08": c08, "C09": c09, "C10": c10, "C16": c16, "C17": c17}
-NEEDS_CASE = ("C02", "C03", "C06", "C07", "C08", "C09", "C10", "C11", "C16", "C17")
+           "C14": c14, "C07": c07, "C08": c08, "C09": c09, "C10": c10, "C16": c16, "C17": c17}
+NEEDS_CASE = ("C02", "C03", "C06", "C07", "C08", "C09", "C10", "C11", "C14", "C16", "C17")
 
 
 def run(prop, case, impl_lines, rerun=None):
@@ -1041,7 +1117,7 @@ def run(prop, case, impl_lines, rerun=None):
             cfg_line = case[1]
         cfg, evs = Cfg(cfg_line), parse(impl_lines)
         if prop in NEEDS_CASE:
-            if case is None and prop not in ("C02", "C03", "C06", "C11"):
+            if case is None and prop not in ("C02", "C03", "C06", "C11", "C14"):
                 return None
             v = f(cfg, evs, case)
             return v or metamorphic(prop, case, impl_lines, rerun)
